@@ -242,6 +242,7 @@ def weave_function(src_fn, spec, path, W, opts, meta):
     body_close = match_close(toks, body_open) if body_open is not None else None
 
     inserts = []  # (token_index, order, text, obligation or None)  text inserted BEFORE token index
+    deleted = set()
     seq = [0]
 
     def add(at, txt, ob=None):
@@ -335,12 +336,32 @@ def weave_function(src_fn, spec, path, W, opts, meta):
         for c in spec.of("before"):
             for hn, (a, b) in enumerate(find_anchor(toks[:body_close + 1], c.name, 1 if c.arg is None else c.arg), 1):
                 add(a, "\n" + c.body + "\n", ob("hint", c, {"name": "%s#%d" % (c.name, hn)}) if c.tags else None)
+        for c in spec.of("replace"):
+            for hn, (a, b) in enumerate(find_anchor(toks[:body_close + 1], c.name, 1 if c.arg is None else c.arg), 1):
+                # ghost-only replacement (names a closure's return value); checked: the replacement
+                # text with `(name: T)` collapsed to `T` and requires/ensures clauses removed must
+                # equal the anchor
+                body = c.body
+                mt = re.search(r"ensures\s+\[([^\]]*)\]", body)
+                tags = []
+                if mt:
+                    tags = [x.strip() for x in mt.group(1).split(",")]
+                    body = body.replace(mt.group(0), "ensures")
+                core = re.split(r"\b(requires|ensures)\b", body)[0]
+                core = re.sub(r"\(\s*\w+\s*:\s*([^()]+)\)\s*$", r"\1", core.strip())
+                norm = lambda x: re.sub(r"\s+", "", x)
+                if norm(core) != norm(c.name):
+                    raise ExtractError("%s: replace changes exec text: %r vs %r" % (path, core, c.name))
+                o = ob("closure-ensures", c, {"name": "%s#%d" % (c.name, hn), "tags": tags}) if tags else None
+                add(a, "\n" + body + "\n", o)
+                for dk in range(a, b):
+                    deleted.add(dk)
         for c in spec.of("after"):
             for hn, (a, b) in enumerate(find_anchor(toks[:body_close + 1], c.name, 1 if c.arg is None else c.arg), 1):
                 add(b, "\n" + c.body + "\n", ob("hint", c, {"name": "%s#%d" % (c.name, hn)}) if c.tags else None)
         if opts.get("vacuity"):
-            add(body_close, "\n    assert(false); // VACUITY-PROBE fn-end\n",
-                {"fn": path, "kind": "vacuity", "name": "fn-end", "tags": [], "text": ""})
+            add(body_open + 1, "\n    assert(false); // VACUITY-PROBE fn-start\n",
+                {"fn": path, "kind": "vacuity", "name": "fn-start", "tags": [], "text": ""})
             for n, (kw, lo, lc) in enumerate(loops, 1):
                 add(lo + 1, "\n    assert(false); // VACUITY-PROBE loop %d\n" % n,
                     {"fn": path, "kind": "vacuity", "name": "loop%d" % n, "tags": [], "text": ""})
@@ -370,6 +391,8 @@ def weave_function(src_fn, spec, path, W, opts, meta):
             if replace_ret and replace_ret[0] <= idx < replace_ret[1]:
                 if idx == replace_ret[0]:
                     out.append(replace_ret[2] + " ")
+                continue
+            if idx in deleted:
                 continue
             out.append(t.text)
             cur_line += t.text.count("\n")
@@ -418,6 +441,7 @@ def rewrite_item_text(src, S, log, sites, is_fn=True):
     src = rules.panics_to_obligations(src, log, sites)
     src = rules.rewrite_format(src, log)
     src = rules.closure_param_patterns(src, log)
+    src = rules.adapter_chains(src, log)
     src = rules.loop_headers(src, log)
     return src
 
@@ -543,6 +567,15 @@ def build(repo, contracts_dir, out_dir, vacuity=False, only=None):
                     raise ExtractError("%s: text_subst source not found: %r" % (p, a))
                 txt = txt.replace(a, b)
                 flog.append({"rule": "R7", "subst": [a, b]})
+            for rs in cfg.get("region_subst", {}).get(p, []):
+                tt = tokenize(txt)
+                (a0, _b0) = find_anchor(tt, rs["from"], 1)[0]
+                rest = tt[a0:]
+                (a1, _b1) = find_anchor(rest, rs["until"], 1)[0]
+                dropped = text(tt, a0, a0 + a1)
+                txt = text(tt, 0, a0) + rs["with"] + text(tt, a0 + a1, len(tt))
+                flog.append({"rule": rs["rule"], "region_dropped_sha256": hashlib.sha256(dropped.encode()).hexdigest(),
+                             "region_lines": dropped.count("\n") + 1, "replaced_with": rs["with"].strip()})
             sp = specs.get(p) or FnSpec(p, "-")
             for a in sp.attrs:
                 W.emit("    " + a + "\n")
@@ -554,7 +587,7 @@ def build(repo, contracts_dir, out_dir, vacuity=False, only=None):
             for o in obs + sobs:
                 o["line_start"] = base + o.pop("rel_line_start")
                 o["line_end"] = base + o.pop("rel_line_end")
-                o["id"] = "%s/%s:%s" % (p, o["kind"], o["name"])
+                o["id"] = "%s/%s%s:%s" % (p, o["kind"], ("#%d" % o["loop"]) if "loop" in o else "", o["name"])
                 W.obligations.append(o)
             start = W.line
             W.emit(woven + "\n\n")
